@@ -168,16 +168,20 @@ def split_model_obs(obs, entries):
             cur = {"probes": [], "limit": None, "done": None, "untidy": False}
     k = 0
     for e in entries:
-        n = 2 if getattr(e, "module", None) else 1
+        n = getattr(e, "nracts", 2) if getattr(e, "module", None) else 1
         g = groups[k:k + n]
         k += n
         if len(g) != n:
             return None
         m = g[-1]
-        if n == 2:
-            m = dict(m)
-            m["probes"] = g[0]["probes"] + g[1]["probes"]
-            m["untidy"] = g[0]["untidy"] or g[1]["untidy"]
+        if n >= 2:
+            # module op = link + evaluate (+ the op's own run_jobs): completion of the evaluation unless run_jobs failed
+            m = dict(g[1])
+            if n == 3 and g[2]["done"] == "U":
+                m["done"], m["limit"] = "U", g[2]["limit"]
+            m["after"] = g[-1]["after"]
+            m["probes"] = [p for x in g for p in x["probes"]]
+            m["untidy"] = any(x["untidy"] for x in g)
         out.append(m)
     return out if k == len(groups) else None
 
@@ -329,7 +333,23 @@ def main():
                              "how_to_rerun": "printf '%s\\n' " + " ".join("'%s'" % o for o in lk["ops"]) + " | harness/target/debug/vmops"})
 
     T['calibration'] = round(_t.time() - t0, 1); t0 = _t.time()
-    # 4b. corpus + correspondence on generated histories
+    # 4b. corpus histories (past disagreements, kept as raw ops): the balance oracle on every entry
+    for fn in sorted(os.listdir(os.path.join(vlib.CORPUS, "C07"))):
+        if fn == "leaks.json" or not fn.endswith(".json"):
+            continue
+        ch = json.load(open(os.path.join(vlib.CORPUS, "C07", fn)))
+        crow = run_vmops(vm, ch["ops"], timeout=300) or []
+        for o, r in zip(ch["ops"], crow):
+            if r["op"] in ("ctx", "use", "limits") or not r["before"] or not r["after"]:
+                continue
+            run.count(("corpus", fn, o[:80], r["before"]))
+            b_, a_ = r["before"], r["after"]
+            if (a_[0], a_[1], a_[3]) != (b_[0], b_[1], b_[3]) or a_[2] != 0 or r["compl"].startswith("P:"):
+                findings.append({"kind": "counterexample", "class": "corpus-" + fn[:-5] + "-unbalanced", "input": ch["ops"][:ch["ops"].index(o) + 1],
+                                 "impl_output": {"before": b_, "after": a_, "completion": r["compl"]},
+                                 "obligation": "depths after a host entry = depths before", "how_to_rerun": "./check replay <this file>"})
+                break
+    # 4c. correspondence on generated histories
     corr_bad = []
     dist = {}
     samples = 0
